@@ -2,7 +2,7 @@
 # usage: tools_mut.sh <file-relative> <python-regex-old> <new> <check-id> ; runs check against /tmp/wt with the mutation
 set -e
 WT=/tmp/wt
-git -C $WT checkout -q -- .
+git -C $WT checkout -q -- . && git -C $WT checkout -q --detach $(git -C /repo rev-parse HEAD)
 python3 - "$WT/$1" "$2" "$3" <<'PY'
 import sys,re
 p,old,new=sys.argv[1:4]
@@ -14,4 +14,4 @@ open(p,'w').write(s)
 PY
 cd /verif
 VERIF_REPO=$WT ./check $4 | grep -v "^  failed" | tail -${5:-4}
-git -C $WT checkout -q -- .
+git -C $WT checkout -q -- . && git -C $WT checkout -q --detach $(git -C /repo rev-parse HEAD)
